@@ -190,6 +190,11 @@ def main():
                 labs = det["labels"]
                 if all((a.labels.get(l, {}).get("confirmed", 0) + a.labels.get(l, {}).get("unconfirmed", 0)) > 0 for l in labs):
                     continue
+                # the real, unpatched code violates the clause on these concrete inputs although the symbolic run of the same path
+                # proved it: the violation is real (it reproduces), and the engine's model of some operation is too weak
+                for l in labs:
+                    if prop in label_props(l):
+                        violations.append((hn, ck, l, {"inputs": det["inputs"]}, 1))
             nmm += 1
             if nmm <= 3:
                 inconclusive.append(f"{hn}[{ck}]: ENCODING MISMATCH ({kind}): {str(det)[:400]}")
